@@ -40,8 +40,8 @@ func main() {
 			os.Exit(0)
 		}
 	}
-	rules.SelfTestHook = func(r *core.Run) { selfTest(r, *repo, *verif) }
-	prog, err := core.Load(core.LoadConfig{Repo: *repo, Whole: *tier == "thorough" && *mutant == "" && *prop != "" && os.Getenv("JKL_NO_WHOLE") == "", Overlay: overlay})
+	rules.SelfTestHook = func(r *core.Run) { crossCheckCallGraph(r); selfTest(r, *repo, *verif) }
+	prog, err := core.Load(core.LoadConfig{Repo: *repo, Whole: false, Overlay: overlay})
 	if err != nil && *mutant != "" {
 		fmt.Println("MUTANT-NOCOMPILE\t" + strings.SplitN(err.Error(), "\n", 3)[1])
 		os.Exit(0)
